@@ -110,9 +110,12 @@ def r_stub(db, rep):
                             guard = body[0]
                 elif c["k"] == "UnaryOperator" and c["op"] == "!" and access_path(f, strip(c["sub"])) == ("this", fld):
                     guard = body[0]
+            if guard is None and _delegated_stub_guard(db, f, fld, rep):
+                rep.notes.append("%s: with %s == 0 every path reaches `return NULL` through effect-free code (the test is made by a helper whose constant result the operation turns into NULL)" % (f.qn, fld))
+                continue
             if guard is None:
                 rep.viol(f.qn + "#guard", f.loc,
-                         "%s does not start with the `%s == 0` test that makes the operation a stub" % (f.qn, fld), f.qn)
+                         "%s: with `%s == 0` the operation is not a stub - it does not start with that test, and following constants under that assumption does not lead through effect-free code to `return NULL`" % (f.qn, fld), f.qn)
                 continue
             then = guard["then"]
             stub_obligations(f, rep, region=then, key=f.qn)
@@ -123,6 +126,124 @@ def r_stub(db, rep):
             if last["k"] != "ReturnStmt":
                 rep.viol(f.qn + "#fallthrough", f.nloc(then),
                          "%s: the `%s == 0` branch does not end in a return; control reaches the real search" % (f.qn, fld), f.qn)
+
+
+def _helper_const_under_zero(db, h, pj):
+    """Constant the helper h returns, without any effect but stream output (and constant stores through its out-parameters), when
+    its parameter pj is 0: its body starts - after such stores - with `if (P == 0) { ...; return K; }`.  None if not of that form."""
+    if h.body is None:
+        return None
+    hb = h.body.get("c", [])
+    j = 0
+    while j < len(hb):
+        x = strip(hb[j])
+        if is_assignment(x) and x.get("op") == "=" and const_value(x.get("rhs")) is not None and strip(x["lhs"])["k"] == "UnaryOperator" \
+                and strip(x["lhs"])["op"] == "*" and (access_path(h, strip(x["lhs"])["sub"]) or ("",))[0] == "param":
+            j += 1
+            continue
+        break
+    if j >= len(hb) or hb[j]["k"] != "IfStmt":
+        return None
+    g = hb[j]
+    gc = strip(g["cond"])
+    okc = False
+    if gc["k"] == "BinaryOperator" and gc["op"] == "==":
+        for a, b in ((gc["lhs"], gc["rhs"]), (gc["rhs"], gc["lhs"])):
+            if access_path(h, a) == ("param", pj) and const_value(b) == 0:
+                okc = True
+    elif gc["k"] == "UnaryOperator" and gc["op"] == "!" and access_path(h, gc["sub"]) == ("param", pj):
+        okc = True
+    if not okc:
+        return None
+    gthen = g["then"]
+    glast = gthen["c"][-1] if gthen["k"] == "CompoundStmt" and gthen.get("c") else gthen
+    if glast["k"] != "ReturnStmt" or glast.get("value") is None or const_value(glast["value"]) is None:
+        return None
+    for n in walk(gthen):
+        k = n["k"]
+        if k in ("CallExpr", "CXXMemberCallExpr", "CXXOperatorCallExpr", "CXXConstructExpr") and not is_stream_output_call(n):
+            return None
+        if is_assignment(n) or k in ("CXXNewExpr", "CXXDeleteExpr", "ArraySubscriptExpr", "CXXThisExpr") or (k == "MemberExpr" and n.get("mk") == "field"):
+            return None
+    return const_value(glast["value"])
+
+
+def _delegated_stub_guard(db, f, fld, rep):
+    """Evaluates the operation under the assumption this->fld == 0, following only constants: declarations, a call to a helper
+    that receives the field and returns a constant (effect-free) when it is 0, tests of that constant.  True when every such path
+    reaches `return <null>` through effect-free code; False otherwise (unknown statement, effect, non-null return)."""
+    env = {}
+
+    def helper_const(call):
+        call = strip(call)
+        if call["k"] not in ("CallExpr", "CXXMemberCallExpr") or call.get("f") not in db.funcs:
+            return None
+        pj = next((j for j, a in enumerate(call.get("args", [])) if access_path(f, a) == ("this", fld)), None)
+        if pj is None:
+            return None
+        return _helper_const_under_zero(db, db.funcs[call["f"]], pj)
+
+    def ev(c):
+        c = strip(c)
+        cv = const_value(c)
+        if cv is not None:
+            return cv
+        if access_path(f, c) == ("this", fld):
+            return 0
+        p = access_path(f, c)
+        if p in env:
+            return env[p]
+        if c["k"] == "UnaryOperator" and c["op"] == "!":
+            v = ev(c["sub"])
+            return None if v is None else int(not v)
+        if c["k"] == "BinaryOperator" and c["op"] in ("==", "!=", ">", "<", ">=", "<="):
+            a, b = ev(c["lhs"]), ev(c["rhs"])
+            if a is None or b is None:
+                return None
+            return int({"==": a == b, "!=": a != b, ">": a > b, "<": a < b, ">=": a >= b, "<=": a <= b}[c["op"]])
+        if c["k"] in ("CallExpr", "CXXMemberCallExpr"):
+            return helper_const(c)
+        return None
+
+    def run(stmts):
+        """True: returned null; False: failed; None: fell through"""
+        for st in stmts:
+            k = st["k"]
+            if k == "DeclStmt":
+                for d in st["decls"]:
+                    if d.get("init") is None:
+                        continue
+                    v = ev(d["init"])
+                    if v is None:
+                        return False
+                    env[("local", d["d"])] = v
+                continue
+            x = strip(st)
+            if is_assignment(x) and x.get("op") == "=" and (access_path(f, x["lhs"]) or ("",))[0] == "local":
+                v = ev(x["rhs"])
+                if v is None:
+                    return False
+                env[access_path(f, x["lhs"])] = v
+                continue
+            if k == "IfStmt":
+                v = ev(st["cond"])
+                if v is None:
+                    return False
+                br = st["then"] if v else st.get("else")
+                if br is None:
+                    continue
+                r = run(br.get("c", []) if br["k"] == "CompoundStmt" else [br])
+                if r is not None:
+                    return r
+                continue
+            if k == "ReturnStmt":
+                return st.get("value") is not None and const_value(st["value"]) == 0
+            if x["k"] in ("CallExpr", "CXXMemberCallExpr", "CXXOperatorCallExpr") and is_stream_output_call(x):
+                continue
+            return False
+        return None
+
+    return run(f.body.get("c", []) if f.body else []) is True
 
 
 def _tag_narrowed(f, first_load, var):
@@ -138,6 +259,16 @@ def _tag_narrowed(f, first_load, var):
                     if vt.get("bits") and lt.get("bits") and vt["bits"] < lt["bits"]:
                         return (lt["bits"], vt["bits"])
     return None
+
+
+def _ekey(f, n):
+    """Structural key of an lvalue expression (access path when there is one; otherwise kind / name / operator of the nodes)."""
+    n = strip(n)
+    p = access_path(f, n)
+    if p is not None:
+        return ("path",) + tuple(p)
+    return (n["k"], n.get("n") or n.get("op") or n.get("opcall") or callee_name(n) if n["k"] in ("CallExpr", "CXXMemberCallExpr") else (n.get("n") or n.get("op") or n.get("opcall")),
+            tuple(_ekey(f, c) for c in children(n)))
 
 
 def tag_check_in_loader(db, f, rep):
@@ -158,6 +289,16 @@ def tag_check_in_loader(db, f, rep):
                 ini = d.get("init")
                 if ini is not None and strip(ini) is first_load:
                     var = d["d"]
+    # ... or the lvalue it is stored into (dict->type = loadValue<..>(in)): compared structurally below
+    tag_lv = None
+    for n in f.nodes():
+        if is_assignment(n) and n.get("op") == "=" and n.get("rhs") is not None and strip(n["rhs"]) is first_load:
+            tag_lv = _ekey(f, n["lhs"])
+
+    def is_tag(a):
+        return (var is not None and a["k"] == "DeclRefExpr" and a.get("d") == var) or a is first_load or \
+            (tag_lv is not None and _ekey(f, a) == tag_lv)
+
     def disjuncts(c):
         c = strip(c)
         if c["k"] == "BinaryOperator" and c["op"] == "||":
@@ -170,7 +311,7 @@ def tag_check_in_loader(db, f, rep):
               if c["k"] == "BinaryOperator" and c["op"] == "!=":
                 l, r = strip(c["lhs"]), strip(c["rhs"])
                 for a, b in ((l, r), (r, l)):
-                    if ((var is not None and a["k"] == "DeclRefExpr" and a.get("d") == var) or a is first_load) and const_value(b) is not None:
+                    if is_tag(a) and const_value(b) is not None:
                         return {"value": const_value(b), "name": strip(b).get("n", str(const_value(b))), "if": n, "reject": n["then"], "pol": False,
                                 "cond": c, "var": var, "load": first_load, "narrow": _tag_narrowed(f, first_load, var)}
             # the accepting spelling:  if (tag == T) { ... load ... } else return NULL;   (or: ... } return NULL;)
@@ -178,7 +319,7 @@ def tag_check_in_loader(db, f, rep):
             if c["k"] == "BinaryOperator" and c["op"] == "==":
                 l, r = strip(c["lhs"]), strip(c["rhs"])
                 for a, b in ((l, r), (r, l)):
-                    if ((var is not None and a["k"] == "DeclRefExpr" and a.get("d") == var) or a is first_load) and const_value(b) is not None:
+                    if is_tag(a) and const_value(b) is not None:
                         rej = n.get("else")
                         if rej is None:
                             par = f.parent(n)
@@ -188,6 +329,41 @@ def tag_check_in_loader(db, f, rep):
                         return {"value": const_value(b), "name": strip(b).get("n", str(const_value(b))), "if": n, "reject": rej, "pol": True,
                                 "cond": c, "var": var, "load": first_load, "narrow": _tag_narrowed(f, first_load, var)}
     return None
+
+
+def _owned_early_object(db, ld, newn, k, rep):
+    """`std::unique_ptr<K> d(new K())` ahead of the tag test: the object is destroyed when the image is rejected, which is clean
+    provided K's destructor only releases members that this (argument-less) construction has initialised."""
+    par = ld.parent(newn)
+    hops = 0
+    while par is not None and par["k"] != "CXXConstructExpr" and hops < 4:
+        par = ld.parent(par)
+        hops += 1
+    if par is None or par["k"] != "CXXConstructExpr" or not (par.get("rec") or "").startswith("std::unique_ptr"):
+        return False
+    ini = strip(newn.get("init")) if newn.get("init") is not None else None
+    if ini is None or ini["k"] != "CXXConstructExpr" or ini.get("args"):
+        return False
+    ctor = db.funcs.get(ini.get("f"))
+    dtors = [d for d in db.methods_of(k) if d.is_dtor]
+    if ctor is None or not dtors:
+        return False
+    import rules_state
+    assigned = set()
+    for fid in db.closure([ctor]):
+        assigned |= set(rules_state.assigned_fields(db, db.funcs[fid]))
+    ok = True
+    for (rec, fld), (line, deref) in rules_state.read_fields(db, dtors[0]).items():
+        fd = db.field(rec, fld) if rec else None
+        if fd is None or fd[2][fd[1]["t"]]["kind"] != "ptr":
+            continue
+        rep.ob()
+        if (rec, fld) not in assigned:
+            ok = False
+            rep.viol(k + "::load#early-object-" + fld, ld.nloc(newn),
+                     "%s creates the dictionary before the tag test; when the image is rejected the object is destroyed, and %s reads "
+                     "%s::%s, which %s never initialises: delete of an indeterminate pointer" % (ld.qn, dtors[0].qn, rec, fld, ctor.qn), ld.qn)
+    return ok
 
 
 @rule("R-TAGS", 13, "every kind has a distinct tag; its loader rejects other tags before allocating; "
@@ -287,6 +463,8 @@ def r_tags(db, rep):
             rep.ob()
             pos = cfg.position(n)
             doms = cfg.guards(n)
+            if is_alloc and _owned_early_object(db, ld, n, k, rep):
+                continue
             if not any(c is not None and strip(c) is tc["cond"] and pol is tc["pol"] for c, pol in doms):
                 rep.viol(k + "::load#early:" + (n.get("fn") or "new"), ld.nloc(n),
                          "%s: %s happens on a path where the tag has not been checked against %s" % (
